@@ -252,6 +252,9 @@ def float_roundtrip(rng, tier):
                     tn = float(M0[:3, 3].abs().max())
                     if tn > 0 and float((M1[:3, 3] - M0[:3, 3]).abs().max()) > tolt * tn and kind not in ('w_eps', 'w_zero', 'nearpi'):
                         fails.append(dict(clause='exp_log_same_translation', signature=sig, err=float((M1[:3, 3] - M0[:3, 3]).abs().max()) / tn, q=q))
+                    # close to the half turn (but not within eps of it) tau = Jl^-1(phi) t is still well conditioned: working accuracy
+                    if tn > 0 and kind == 'nearpi' and g == 'SE3' and float((M1[:3, 3] - M0[:3, 3]).abs().max()) > 256 * eps * tn:
+                        fails.append(dict(clause='exp_log_same_translation_near_pi', signature=sig, err=float((M1[:3, 3] - M0[:3, 3]).abs().max()) / tn, q=q))
                 li = X.Inv().Log().tensor().double()
                 if kind not in ('nearpi', 'w_eps', 'w_zero') and float((li + xt).abs().max()) > tolt * (1 + float(xt.abs().max())):
                     fails.append(dict(clause='log_of_inverse_is_minus_log', signature=sig, err=float((li + xt).abs().max())))
